@@ -121,6 +121,31 @@ def decorate(model, rng, what):
                 line = line[: i + 1] + "\n      " + line[i + 1:]
             out.append(line)
         return "\n".join(out) + "\n", {"decoration": what}
+    if what == "layout":
+        # any white space (blanks, tabs, line feeds, CR LF, form feeds) between the tokens of a right-hand side wherever the
+        # expression is inside parentheses; one blank between the tokens outside (Lex.lex_layout: the tokens are the same)
+        out = []
+        for line in text.splitlines():
+            if " = " in line and "#" not in line and not line.lstrip().startswith(("states", "parameters", "expressions")) and rng.random() < 0.7:
+                lhs, rhs = line.split(" = ", 1)
+                toks = [m_.group(0).strip() for m_ in impl._TOKEN_RE.finditer(rhs.rstrip())]
+                if toks and "".join(toks) == "".join(rhs.split()):
+                    depth = 0
+                    parts = []
+                    for k_, tk in enumerate(toks):
+                        parts.append(tk)
+                        if tk == "(":
+                            depth += 1
+                        nxt = toks[k_ + 1] if k_ + 1 < len(toks) else None
+                        if nxt is None:
+                            break
+                        d_after = depth - (1 if nxt == ")" else 0)
+                        parts.append(rng.choice([" ", "\t", "\n   ", " \r\n\t", "\f ", "  ", "\n\n  "]) if min(depth, d_after) > 0 else " ")
+                        if nxt == ")":
+                            depth -= 1
+                    line = lhs + " = " + "".join(parts)
+            out.append(line)
+        return "\n".join(out) + "\n", {"decoration": what}
     raise ValueError(what)
 
 
@@ -233,7 +258,7 @@ def main(argv=None):
             if cd.err is not None or view(cd) != base_view0:
                 rep.violation(f"the annotation {ann[:60]!r} changes the model: {cd.err or 'component membership / layout differ'}",
                               {"kind": "direct", "text": base, "decorated": deco, "decoration": kind_, "error": cd.err})
-    kinds = ["comment_lines", "trailing", "annotations", "blank_lines", "indentation", "crlf", "crlf_blank_lines", "continuation"]
+    kinds = ["comment_lines", "trailing", "annotations", "blank_lines", "indentation", "crlf", "crlf_blank_lines", "continuation", "layout"]
     for i in range(n):
         got = family.new_case(drv, rng, gen, rep, n_comps=rng.choice([1, 2, 3]))
         if got is None:
